@@ -29,10 +29,10 @@ var (
 // reference names by the type they have in the base environment
 var refsOf = map[string][]string{
 	"int": {"a", "n"}, "float": {"x", "y"}, "string": {"s", "u"}, "ascii": {"w"}, "bool": {"p", "q"},
-	"duration": {"d", "e"}, "time": {"tm"},
+	"duration": {"d", "e"}, "time": {"time"},
 }
 var baseTy = map[string]string{"a": "int", "n": "int", "x": "float", "y": "float", "s": "string", "u": "string", "w": "ascii",
-	"p": "bool", "q": "bool", "d": "duration", "e": "duration", "tm": "time"}
+	"p": "bool", "q": "bool", "d": "duration", "e": "duration", "time": "time"}
 
 type gen struct {
 	r    *kit.Rand
@@ -140,6 +140,9 @@ func (g *gen) expr(ty string, depth int) *ex {
 		case 5:
 			return un("neg", g.expr("int", d))
 		case 6:
+			if r.Bool() {
+				return call(kit.Pick(r, []string{"unixNano", "hour", "minute", "day", "weekday"}), g.ref("time"))
+			}
 			return call("count")
 		case 7:
 			return call(kit.Pick(r, []string{"strLength", "int"}), g.leaf(kit.Pick(r, []string{"string", "string", "float", "bool"})))
@@ -262,6 +265,10 @@ func genCase(r *kit.Rand, i int, thorough bool) []string {
 	ty := kit.Pick(r, allTys)
 	flip := 30
 	mainPath := ""
+	usePoints := r.Chance(1, 4)
+	if usePoints && r.Chance(3, 4) {
+		ty = "bool" // EvalPredicate wants a boolean
+	}
 	if r.Chance(1, 3) {
 		e, ty, mainPath, flip = g.directed(i)
 	} else {
@@ -291,6 +298,10 @@ func genCase(r *kit.Rand, i int, thorough bool) []string {
 		n += r.Intn(6)
 	}
 	for j := 0; j < n; j++ {
+		if usePoints && !r.Chance(1, 6) {
+			lines = append(lines, g.point(names, r.Intn(nInst), flip).line())
+			continue
+		}
 		p := mainPath
 		if p == "" || r.Chance(1, 4) {
 			switch k := r.Intn(100); {
@@ -317,7 +328,7 @@ func genCase(r *kit.Rand, i int, thorough bool) []string {
 func (g *gen) directed(i int) (*ex, string, string, int) {
 	r := g.r
 	i64 := func() *ex { return lit(kit.Pick(r, intPool)) }
-	switch r.Intn(14) {
+	switch r.Intn(15) {
 	case 0: // dynamic math node asked directly, operand type changes between points (ill-typed point in between)
 		return bin(kit.Pick(r, []string{"plus", "minus", "mult"}), g.ref("int"), i64()), "int", "dInt", 50
 	case 1: // node with constant operand types whose operand fails its type guard at run time
@@ -361,7 +372,43 @@ func (g *gen) directed(i int) (*ex, string, string, int) {
 		return call("if", call("isPresent", ref(n)), kit.Pick(r, []*ex{ref(n), un("neg", ref(n))}), i64()), "int", "", 70
 	case 12: // duration arithmetic with float conversions
 		return bin(kit.Pick(r, []string{"mult", "div"}), g.ref("duration"), g.ref(kit.Pick(r, []string{"float", "int"}))), "duration", "", 40
+	case 13: // the point's time
+		return bin(kit.Pick(r, []string{"ge", "lt", "eq"}), call(kit.Pick(r, []string{"unixNano", "hour", "minute", "day", "month", "year", "weekday"}), g.ref("time")),
+			kit.Pick(r, []*ex{i64(), g.ref("int")})), "bool", "", 30
 	default: // count() shared cache, separate state
 		return bin("gt", call("count"), lit(int64(r.Intn(3)))), "bool", "pred", 0
 	}
+}
+
+var fieldTys = []string{"int", "float", "string", "bool"}
+
+// point draws a point for kapacitor.EvalPredicate: every referenced name is a field (mostly of its base type when
+// that is a field type), a tag, both (collision), or absent (missing).
+func (g *gen) point(names []string, inst, flip int) evalOp {
+	r := g.r
+	o := evalOp{inst: inst, path: "point", tm: int64(r.Intn(2000000000))*1000000000 + int64(r.Intn(1000))}
+	for _, n := range names {
+		ty := baseTy[n]
+		if ty == "ascii" {
+			ty = "string"
+		}
+		legal := ty == "int" || ty == "float" || ty == "string" || ty == "bool"
+		if !legal || r.Intn(100) < flip {
+			ty = kit.Pick(r, fieldTys)
+		}
+		switch k := r.Intn(100); {
+		case k < 68:
+			o.fields = append(o.fields, binding{n, g.valOf(ty)})
+		case k < 80:
+			o.tags = append(o.tags, binding{n, kit.Pick(r, strPool)})
+		case k < 86:
+			o.fields = append(o.fields, binding{n, g.valOf(ty)})
+			o.tags = append(o.tags, binding{n, kit.Pick(r, strPool)})
+		}
+	}
+	if r.Chance(1, 10) { // a field or tag nobody references, and one called "time" (ignored: time is the point's time)
+		o.fields = append(o.fields, binding{"unused", int64(1)})
+		o.tags = append(o.tags, binding{"time", "x"})
+	}
+	return o
 }
